@@ -32,8 +32,8 @@ ASSUMPTIONS = [
     "the feed covers the meter's span completely (one extra day on both sides in the feed's own zone); feed zones other "
     "than the meter's differ only in representation and in where the feed starts, which is what the statement allows "
     "(whole number of sampling intervals)",
-    "frame entry: the caller converts the feed to the meter's zone and supplies exactly the rows from the first meter "
-    "timestamp to the end of the last meter day (the frame from_series itself would build); other frame layouts are "
+    "frame entry: the caller converts the feed to the meter's zone and supplies the rows from the first meter "
+    "timestamp (or 6 / 30 hours before it: frame_lead_hours) to the end of the last meter day; other frame layouts are "
     "not enumerated",
     "per-day counts are read from the coverage frame returned by the instance's own _set_data (recorded by a "
     "subclass that only stores the return value); a meter day missing from that frame is a mismatch, except a day "
@@ -161,7 +161,8 @@ def build_inputs(case):
         return ("series", meter, temp), days, times, values
     # frame: feed converted to the meter zone, rows from the first meter timestamp to the end of the last meter day
     t_loc = temp.tz_convert(zone)
-    lo, hi = to_index([days[0][0]], zone)[0], to_index([days[-1][1]], zone)[0]
+    # frame_lead_hours: the weather rows begin some hours BEFORE the first meter day (a UTC-day download joined to a local-midnight meter)
+    lo, hi = to_index([days[0][0] - 60 * case.get("frame_lead_hours", 0)], zone)[0], to_index([days[-1][1]], zone)[0]
     t_loc = t_loc[(t_loc.index >= lo) & (t_loc.index < hi)]
     if meter_kind == "billing":
         meter = meter.iloc[:-1]  # frame_lastday convention: final row = last day of the last period, observed NaN there
@@ -319,6 +320,15 @@ def cases(tier):
                     for gaps in [[k] for k in range(1, N_DAYS - 1)]:
                         out.append({"family": "daily", "cls": "baseline", "entry": entry, "feed": 60, "feed_zone": "same", "meter": meter,
                                     "zone": z, "window": w, "dst_pos": N_DAYS // 2, "runs": [], "meter_gaps": gaps})
+    # ---- frames whose weather rows start 6 / 30 hours before the first meter day, with and without an absent meter day: the days stay on
+    # the meter's lattice (every meter day keeps its stamp and the mean of its own readings)
+    for z in meter_zones:
+        for w in ("spring", "autumn"):
+            for lead in (6, 30):
+                for feed in (60, 30):
+                    for gaps in [[]] + [[k] for k in range(1, N_DAYS - 1)]:
+                        out.append({"family": "daily", "cls": "baseline", "entry": "frame", "feed": feed, "feed_zone": "same", "meter": "daily00",
+                                    "zone": z, "window": w, "dst_pos": N_DAYS // 2, "runs": [], "meter_gaps": gaps, "frame_lead_hours": lead})
     # ---- one-day and two-day data objects (single-day reporting, day-by-day scoring): the day keeps its own stamp and the mean of its own
     # readings, through every entry point, with and without a meter, also when that day is the day of the clock change
     for z in meter_zones:
